@@ -414,6 +414,23 @@ contract("abs:ModelVisitor.visit_many.steps", trusted=False, pos_params=["self",
                   "G_nvisit == old(G_nvisit) + len(iterable) and forall(lambda k: implies(0 <= k < len(iterable), "
                   "G_visit_arg(old(G_nvisit) + k) is iterable[k]))"},
          doc="call-site view of visit_many (proved above)")
+SO_MODIFIED = ("exists(lambda k: 0 <= k < len(scenario_outline.examples) and not is_none(scenario_outline.examples[k].table) and "
+               "as_ref(scenario_outline.examples[k].table, 'Table').modified)")
+contract("abs:visitor.on_scenario_outline", trusted=True, pos_params=["self", "scenario_outline"], pure=True, result="any",
+         ensures={"continue": "result is None"}, doc="visitor callback (SummaryCollector.on_scenario_outline returns None: continue)")
+contract(MV + "ModelVisitor.visit_scenario_outline", props=P,
+         params={"self": "ref:ModelVisitor", "scenario_outline": "ref:ScenarioOutline"}, self_classes=["SummaryCollector"],
+         callsites={"self.visitor.on_scenario_outline": "abs:visitor.on_scenario_outline",
+                    "self.visit_many": "abs:ModelVisitor.visit_many.steps",
+                    "scenario_outline.scenarios": "behave.model:ScenarioOutline.scenarios"},
+         modifies=["G_nvisit", "G_visit_arg", "scenario_outline._scenarios", "G_nbuilds", "*.modified", "*.index", "*.id"],
+         ensures={"the-row-scenarios-are-(re)built-before-they-are-counted: no-examples-table-is-left-marked-modified":
+                  "not %s" % SO_MODIFIED,
+                  "every-row-scenario-is-visited-once-in-order":
+                  "G_nvisit == %s + len(scenario_outline._scenarios) and forall(lambda k: implies(0 <= k < "
+                  "len(scenario_outline._scenarios), G_visit_arg(%s + k) is scenario_outline._scenarios[k]))" % (V0, V0)},
+         doc="an outline that was never run (de-selected feature, --dry-run of a later formatter, a table edited by a hook) "
+             "still has its rows counted: the visitor goes through the lazily building property, not the cached list")
 contract(MV + "ModelVisitor.visit_scenario", props=P,
          params={"self": "ref:ModelVisitor", "scenario": "ref:Scenario"}, self_classes=["SummaryCollector"],
          callsites={"self.visitor.on_scenario": "abs:visitor.on_scenario", "self.visit_many": "abs:ModelVisitor.visit_many.steps"},
